@@ -22,6 +22,14 @@ def _mulx(a, b):
     return a * b
 
 
+_SEM = [None]
+
+
+def set_sem(ctx):
+    """switch term equality to `semantic under ctx` (rules only; None = structural, used by the interpreter)"""
+    _SEM[0] = ctx
+
+
 class Poly:
     """Immutable polynomial: dict monomial -> coeff; monomial = tuple of (atom, power), sorted by repr."""
     __slots__ = ('t', '_h', '_k')
@@ -62,7 +70,22 @@ class Poly:
         return self._h
 
     def __eq__(self, o):
-        return isinstance(o, Poly) and self.t == o.t
+        if not isinstance(o, Poly):
+            return False
+        if self.t == o.t:
+            return True
+        ctx = _SEM[0]
+        if ctx is None:
+            return False
+        # rule evaluation mode: equality of terms is semantic under the outcome's ranges and facts
+        _SEM[0] = None
+        try:
+            return ctx.sem_eq(self, o)
+        finally:
+            _SEM[0] = ctx
+
+    def __ne__(self, o):
+        return not self.__eq__(o)
 
     def is_const(self):
         return all(m == () for m in self.t)
@@ -380,11 +403,29 @@ def cmp_term(op, a, b):
     if c is not None:
         return bconst({'<': c < 0, '<=': c <= 0, '==': c == 0, '!=': c != 0}[o])
     if o in ('==', '!='):
+        # a product compared with 0: drop factors that are structurally non-zero; a {0,1}-valued factor b gives the
+        # canonical forms  (b != 0) -> (b - 1 == 0),  (b == 0) -> (b - 1 != 0)
+        if len(d.t) == 1 and () not in d.t:
+            (m, c), = d.t.items()
+            rest = [(a_, pw) for a_, pw in m if not _struct_nonzero(a_)]
+            if len(rest) == 1 and rest[0][1] >= 1 and _struct_bit(rest[0][0]):
+                bterm = Poly.atom(rest[0][0]) - 1
+                return B(('cmp', '==' if o == '!=' else '!=', bterm))
+            if len(rest) < len(m) and rest:
+                d = Poly({tuple(rest): Fr(1)})
         # canonical sign: make the leading coefficient positive
         lead = d.key()[0][1]
         if lead < 0:
             d = -d
     return B(('cmp', o, d))
+
+
+def _struct_nonzero(a):
+    return a[0] == 'shl' and a[1].const_value() is not None and a[1].const_value() >= 1
+
+
+def _struct_bit(a):
+    return a[0] == 'mod' and a[2].const_value() == 2
 
 
 # ---------------------------------------------------------------------------------------
@@ -686,8 +727,9 @@ class Ctx:
         r = _decide_by_range(op, lo, hi)
         if r is not None:
             return r
-        # integer-valued difference: strict bounds tighten by one
-        # order facts: same polynomial up to a positive/negative rational factor
+        # order facts on the same polynomial up to an affine map d = s*F + k: accumulate all bounds, then decide
+        blo, bhi = (lo, False), (hi, False)
+        used = False
         for f in self.facts:
             if f.k[0] != 'cmp':
                 continue
@@ -696,7 +738,6 @@ class Ctx:
             if sk is None:
                 continue
             s, k = sk
-            # d = s * fd + k
             lo2, hi2 = _fact_range(fop, s)
             if lo2 is None:
                 # fact is '!=': only decides ==/!= of the same polynomial
@@ -706,13 +747,88 @@ class Ctx:
                     if op == '!=':
                         return True
                 continue
-            lo2 = (lo2[0] + k, lo2[1])
-            hi2 = (hi2[0] + k, hi2[1])
-            lo3, hi3 = max(lo, lo2[0]), min(hi, hi2[0])
-            r = _decide_by_range_strict(op, (lo3, lo2[1] if lo2[0] >= lo else False), (hi3, hi2[1] if hi2[0] <= hi else False))
+            used = True
+            step = abs(s) if (fop == '<' and self._int_valued(fd)) else 0
+            l2 = (lo2[0] + k + (step if lo2[0] != -INF and lo2[1] else 0), lo2[1] and not step)
+            h2 = (hi2[0] + k - (step if hi2[0] != INF and hi2[1] else 0), hi2[1] and not step)
+            if l2[0] > blo[0] or (l2[0] == blo[0] and l2[1]):
+                blo = l2
+            if h2[0] < bhi[0] or (h2[0] == bhi[0] and h2[1]):
+                bhi = h2
+        if used:
+            if blo[0] > bhi[0]:
+                return None   # contradictory facts: leave undecided
+            r = _decide_by_range_strict(op, blo, bhi)
+            if r is not None:
+                return r
+            if op == '==' and blo[0] == bhi[0] == 0 and not blo[1] and not bhi[1]:
+                return True
+            if op == '!=' and blo[0] == bhi[0] == 0 and not blo[1] and not bhi[1]:
+                return False
+        # last resort: floor-division identity  c*idiv(P,c) = P - mod(P,c)
+        d2 = _expand_idiv(d, self)
+        if d2 is not None and d2 != d:
+            lo, hi = self.rng(d2)
+            r = _decide_by_range(op, lo, hi)
             if r is not None:
                 return r
         return None
+
+    def simp(self, p, depth=0):
+        """re-apply the smart constructors of all atoms of p under the current ranges and facts"""
+        p = as_poly(p)
+        if depth > 6:
+            return p
+        mapping = {}
+        for a in p.atoms():
+            tag = a[0]
+            if tag in ('sym', 'nan', 'app', 'tbl', 'inv', 'ite', 'tan', 'wrap', 'wrapcast'):
+                if tag == 'tbl':
+                    na = Poly.atom(('tbl', a[1], self.simp(a[2], depth + 1)))
+                    if na != Poly.atom(a):
+                        mapping[a] = na
+                continue
+            args = [self.simp(x, depth + 1) if isinstance(x, Poly) else x for x in a[1:]]
+            if tag == 'idiv':
+                n = t_idiv(args[0], args[1], self)
+            elif tag == 'mod':
+                n = t_mod(args[0], args[1], self)
+            elif tag in ('min', 'fmin'):
+                n = t_min(args[0], args[1], self, tag)
+            elif tag in ('max', 'fmax'):
+                n = t_max(args[0], args[1], self, tag)
+            elif tag == 'abs':
+                n = t_abs(args[0], self)
+            elif tag == 'f2i':
+                n = t_f2i(args[0], args[1], args[2], self)
+            elif tag == 'bitand':
+                n = t_bitand(args[0], args[1], self)
+            elif tag == 'bitor':
+                n = t_bitor(args[0], args[1], self)
+            elif tag == 'shr':
+                n = t_shr(args[0], args[1], self)
+            elif tag == 'shl':
+                n = t_shl(args[0], args[1], self)
+            elif tag == 'frem':
+                n = t_frem(args[0], args[1], self)
+            else:
+                continue
+            if n != Poly.atom(a):
+                mapping[a] = n
+        return p.subst(mapping) if mapping else p
+
+    def sem_eq(self, a, b):
+        """a and b denote the same value under the current ranges and facts (structurally, after re-simplification,
+        or because a - b is decided to be 0)"""
+        a, b = as_poly(a), as_poly(b)
+        if a == b:
+            return True
+        a2, b2 = self.simp(a), self.simp(b)
+        if a2 == b2:
+            return True
+        if a2.is_nan() or b2.is_nan():
+            return False
+        return self.decide(cmp_term('Eq', a2, b2)) is True
 
     def assume(self, b, value=True):
         """Add the fact b == value; refine symbol ranges where the fact is sym <op> const.
@@ -775,6 +891,11 @@ class Ctx:
             elif integer and hi == bound:
                 hi = hi - 1
         self.ranges[a] = (lo, hi)
+        # |P| <= h  =>  -h <= P <= h
+        if a[0] == 'abs' and hi not in (INF, -INF):
+            for f in (cmp_term('Le', a[1], hi), cmp_term('Ge', a[1], -hi)):
+                if f.k[0] == 'cmp' and f not in self.facts:
+                    self.facts.append(f)
         # a refined floor-division atom bounds its numerator
         if a[0] == 'idiv' and a[2].const_value() is not None and a[2].const_value() > 0 and lo <= hi:
             c = a[2].const_value()
@@ -945,6 +1066,24 @@ def _ratio(d, fd):
         elif s != r:
             return None
     return s
+
+
+def _expand_idiv(p, ctx):
+    """rewrite alpha*idiv(P, c) (alpha divisible by c) as (alpha/c)*(P - mod(P, c)); None if nothing to do"""
+    changed = False
+    res = Poly({})
+    for m, coef in p.t.items():
+        done = False
+        if len(m) == 1 and m[0][1] == 1 and m[0][0][0] == 'idiv':
+            a = m[0][0]
+            c = a[2].const_value()
+            if c is not None and c > 0 and (coef / c).denominator == 1:
+                res = res + (a[1] - t_mod(a[1], a[2], ctx)).scale(coef / c)
+                changed = True
+                done = True
+        if not done:
+            res = res + Poly({m: coef})
+    return res if changed else None
 
 
 def _affine_ratio(d, fd):
@@ -1179,6 +1318,11 @@ def t_bitand(p, q, ctx):
         return Poly.const(int(pc) & int(qc))
     if pc is not None:
         p, q, pc, qc = q, p, qc, pc
+    # single-bit masks 1 << k:  x & (1 << k)  =  ((x >> k) mod 2) << k
+    for x_, m_ in ((p, q), (q, p)):
+        am = m_.as_single_atom()
+        if am is not None and am[0] == 'shl' and am[1].const_value() == 1:
+            return t_mod(t_shr(x_, am[2], ctx), Poly.const(2), ctx) * m_
     if qc is not None and qc >= 0 and qc.denominator == 1:
         qi = int(qc)
         if qi == 0:
